@@ -81,56 +81,140 @@ def _flatten_concat(e: ast.AST) -> List[ast.AST]:
     return [e]
 
 
-def resolve_pattern(fn: ast.AST, pat: ast.AST, depth: int = 0) -> List[ast.AST]:
-    """Follow local names and re.compile(...) wrappers to the expression(s) that build the pattern text."""
-    if depth > 4:
-        return [pat]
+_MODULE_CACHE: Dict = {}
+
+
+def _find_callee(fn: ast.AST, call: ast.Call) -> Optional[ast.AST]:
+    """A helper function defined in the same function, class or module as fn (name-resolved)."""
+    f = call.func
+    mod = source.module_of(fn)
+    if isinstance(f, ast.Name):
+        # nested in fn or an enclosing function, else module level
+        scopes = [fn] + [a for a in source.ancestors(fn) if isinstance(a, (ast.FunctionDef, ast.AsyncFunctionDef))]
+        for sc in scopes:
+            for st in getattr(sc, "body", []):
+                if isinstance(st, (ast.FunctionDef, ast.AsyncFunctionDef)) and st.name == f.id:
+                    return st
+            for st in source.walk_own(sc):
+                if isinstance(st, (ast.FunctionDef, ast.AsyncFunctionDef)) and st.name == f.id:
+                    return st
+        return mod.functions.get(f.id)
+    d = dotted(f)
+    if d and d.startswith("experiment.") and d.count(".") >= 2:
+        parts = d.split(".")
+        for cut in (1, 2):   # module.function  or module.Class.method
+            rel = "python/" + "/".join(parts[:-cut]) + ".py"
+            try:
+                other = _MODULE_CACHE.get((mod.root, rel)) or source.Module(mod.root, rel)
+            except source.AnalysisError:
+                continue
+            _MODULE_CACHE[(mod.root, rel)] = other
+            g = other.functions.get(".".join(parts[-cut:]))
+            if g is not None:
+                return g
+    if isinstance(f, ast.Attribute) and isinstance(f.value, ast.Name):
+        cls = source.enclosing_class(fn)
+        if f.value.id in ("self", "cls") and cls is not None:
+            return mod.functions.get("%s.%s" % (getattr(cls, "_qualname", cls.name), f.attr))
+        if f.value.id in mod.classes:
+            return mod.functions.get("%s.%s" % (f.value.id, f.attr))
+    return None
+
+
+def resolve_pattern(fn: ast.AST, pat: ast.AST, depth: int = 0, binds: Optional[Dict[str, ast.AST]] = None):
+    """Follow local names, re.compile(...) wrappers and small helper functions to the expression(s) that build
+    the pattern text.  Returns a list of (expression, function context, parameter bindings)."""
+    binds = binds or {}
+    if depth > 6:
+        return [(pat, fn, binds)]
     if isinstance(pat, ast.Call) and (call_name(pat) or "") in ("re.compile",) and pat.args:
-        return resolve_pattern(fn, pat.args[0], depth + 1)
+        return resolve_pattern(fn, pat.args[0], depth + 1, binds)
     if isinstance(pat, ast.Name):
+        if pat.id in binds:
+            return [(binds[pat.id], fn, {})]
         vals = _local_values(fn, pat.id)
         if vals:
-            out: List[ast.AST] = []
+            out = []
             for v in vals:
-                out.extend(resolve_pattern(fn, v, depth + 1))
+                out.extend(resolve_pattern(fn, v, depth + 1, binds))
             return out
-    return [pat]
+    if isinstance(pat, ast.Call) and (call_name(pat) or "") not in ("re.escape",):
+        g = _find_callee(fn, pat)
+        if g is not None:
+            params = [a.arg for a in g.args.args if a.arg not in ("self", "cls")]
+            nb: Dict[str, ast.AST] = {}
+            for p_, a in zip(params, pat.args):
+                nb[p_] = binds.get(a.id, a) if isinstance(a, ast.Name) else a
+            for kw in pat.keywords:
+                if kw.arg:
+                    nb[kw.arg] = kw.value
+            out = []
+            for r in source.walk_own(g):
+                if isinstance(r, ast.Return) and r.value is not None:
+                    out.extend(resolve_pattern(g, r.value, depth + 1, nb))
+            if out:
+                return out
+    return [(pat, fn, binds)]
 
 
-def pattern_anchoring(expr: ast.AST) -> Dict[str, object]:
+def _const_text(fn: ast.AST, e: ast.AST) -> Optional[str]:
+    if isinstance(e, ast.Constant) and isinstance(e.value, str):
+        return e.value
+    if isinstance(e, ast.Name):
+        vals = _local_values(fn, e.id)
+        if vals and all(isinstance(v, ast.Constant) and isinstance(v.value, str) for v in vals) and len({v.value for v in vals}) == 1:
+            return vals[0].value
+        mod = source.module_of(fn)
+        for st in mod.tree.body:
+            if isinstance(st, ast.Assign) and any(isinstance(t, ast.Name) and t.id == e.id for t in st.targets) \
+                    and isinstance(st.value, ast.Constant) and isinstance(st.value.value, str):
+                return st.value.value
+    return None
+
+
+def pattern_anchoring(expr: ast.AST, fn: Optional[ast.AST] = None, binds: Optional[Dict[str, ast.AST]] = None) -> Dict[str, object]:
     """Classify one pattern-building expression."""
-    info: Dict[str, object] = {"escaped_keys": [], "left": False, "right": False, "raw_interpolation": False,
-                               "shape": source.short(expr, 120)}
+    binds = binds or {}
+    info: Dict[str, object] = {"escaped_keys": [], "escaped_key_nodes": [], "left": False, "right": False,
+                               "raw_interpolation": False, "shape": source.short(expr, 120)}
+
+    def key_node(call: ast.Call) -> Optional[ast.AST]:
+        if not call.args:
+            return None
+        a = call.args[0]
+        if isinstance(a, ast.Name) and a.id in binds:
+            return binds[a.id]
+        return a
     if isinstance(expr, ast.BinOp) and isinstance(expr.op, ast.Mod) and isinstance(expr.left, ast.Constant):
         # "...%s..." % key  : the key goes into the regex unescaped unless it is re.escape(...)
         args = expr.right.elts if isinstance(expr.right, ast.Tuple) else [expr.right]
         esc = [a for a in args if isinstance(a, ast.Call) and call_name(a) == "re.escape"]
         if len(esc) != len(args):
             info["raw_interpolation"] = True
-        info["escaped_keys"] = [source.src(a.args[0]) for a in esc if a.args]
+        info["escaped_key_nodes"] = [key_node(a) for a in esc if key_node(a) is not None]
+        info["escaped_keys"] = [source.src(k) for k in info["escaped_key_nodes"]]
         fmt = expr.left.value if isinstance(expr.left.value, str) else ""
         first = fmt.split("%s")[0] if "%s" in fmt else fmt
         last = fmt.split("%s")[-1] if "%s" in fmt else ""
-        info["left"] = any(first.endswith(a) or (a in ("(?<!", "(?<=") and a in first) for a in LEFT_ANCHORS)
+        info["left"] = first.endswith("\\b") or any(a in first for a in ("(?<!", "(?<=", "(?:^|")) or first.endswith("^")
         info["right"] = any(last.startswith(a) for a in RIGHT_ANCHORS)
         return info
     parts = _flatten_concat(expr)
+    texts: List[Optional[str]] = [(_const_text(fn, p) if fn is not None else (p.value if isinstance(p, ast.Constant) and isinstance(p.value, str) else None))
+                                  for p in parts]
     idx = [i for i, p in enumerate(parts) if isinstance(p, ast.Call) and call_name(p) == "re.escape"]
-    non_const_non_escape = [p for i, p in enumerate(parts) if i not in idx and not isinstance(p, ast.Constant)]
-    if non_const_non_escape and not idx:
+    unknown = [p for i, p in enumerate(parts) if i not in idx and texts[i] is None]
+    if unknown:
         info["raw_interpolation"] = True
-        return info
     if not idx:
         return info
-    info["escaped_keys"] = [source.src(parts[i].args[0]) for i in idx if parts[i].args]
+    info["escaped_key_nodes"] = [key_node(parts[i]) for i in idx if key_node(parts[i]) is not None]
+    info["escaped_keys"] = [source.src(k) for k in info["escaped_key_nodes"]]
     i0, i1 = idx[0], idx[-1]
-    left_txt = "".join(p.value for p in parts[:i0] if isinstance(p, ast.Constant) and isinstance(p.value, str))
-    right_txt = "".join(p.value for p in parts[i1 + 1:] if isinstance(p, ast.Constant) and isinstance(p.value, str))
-    info["left"] = any(left_txt.endswith(a) for a in ("\\b",)) or any(a in left_txt for a in ("(?<!", "(?<=", "(?:^|")) \
-        or left_txt.endswith("^")
+    left_txt = "".join(t for t in texts[:i0] if t is not None)
+    right_txt = "".join(t for t in texts[i1 + 1:] if t is not None)
+    info["left"] = left_txt.endswith("\\b") or any(a in left_txt for a in ("(?<!", "(?<=", "(?:^|")) or left_txt.endswith("^")
     info["right"] = right_txt.startswith("\\b") or any(right_txt.startswith(a) for a in ("(?!", "(?=", "(?:$|", "$"))
-    if any(not isinstance(p, (ast.Constant,)) and i not in idx for i, p in enumerate(parts)):
-        info["raw_interpolation"] = True
     return info
 
 
